@@ -85,10 +85,15 @@ def poll_cases(rng, adapters=ADAPTERS):
     for a in adapters:
         for k, (st, ct, body) in enumerate(replies):
             out.append((line(a, "devpoll", st, ct, body, pad=k % 2), "same/devpoll/%s" % a))
+            if a == "reqwest":
+                # the future-based twin of the session, through the crate's AsyncHttpClient for reqwest::Client
+                out.append((line(a, "devpoll_async", st, ct, body, pad=k % 2), "same/devpoll-async/%s" % a))
         # every exchange of the session fails (reply cut short / no reply): the loop backs off and polls again until the deadline
         for flag in ("truncated", "close_before", "obs", "reason"):
             out.append((line(a, "devpoll", 200, JSON, tok, pad="0+" + flag), "same-%s/devpoll/%s" % (flag, a)))
             out.append((line(a, "devpoll", 400, JSON, b"{\"error\":\"access_denied\"}", pad="1+" + flag), "same-%s/devpoll/%s" % (flag, a)))
+            if a == "reqwest":
+                out.append((line(a, "devpoll_async", 400, JSON, b"{\"error\":\"slow_down\"}", pad="0+" + flag), "same-%s/devpoll-async/%s" % (flag, a)))
     return out
 
 
